@@ -47,9 +47,11 @@ from harness.translate import measures as M2
 from harness.translate import translate as T
 
 VERSION = "x_bases.py/1"
-GEN_FILES = ("BasesSrc.v", "StripeBasesSrc.v", "MaskSrc.v", "PassMeasureSrc.v")
+GEN_FILES = ("BasesSrc.v", "StripeBasesSrc.v", "MaskSrc.v", "PassMeasureSrc.v", "ScalarSrc.v",
+             "StripeFactorySrc.v")
 
 M_MASK = "cr/cube/min_base_size_mask.py"
+M_SCALAR = "cr/cube/scalar.py"
 
 Unavailable = T.Unavailable
 _un = T._un
@@ -112,6 +114,8 @@ def p_bcond(c):
         return "QIsNone (%s)" % p_bexp(c[1])
     if k == "QFlag":
         return "QFlag %s %s" % (q(c[1]), q(c[2]))
+    if k == "QDimTypeIn":
+        return "QDimTypeIn %d %s" % (c[1], q(c[2]))
     if k == "QNot":
         return "QNot (%s)" % p_bcond(c[1])
     raise AssertionError(c)
@@ -129,6 +133,10 @@ def p_bexp(t):
         return "BSliceAttr %s" % q(t[1])
     if k == "BSize":
         return "BSize"
+    if k == "BArg":
+        return "BArg %s" % q(t[1])
+    if k == "BConstZ":
+        return "BConstZ (%d)%%Z" % t[1]
     if k == "BSum":
         return "BSum %s %s %s %s %d %d" % (p_flag(t[1]), p_flag(t[2]), q(t[3]), q(t[4]), t[5], t[6])
     if k == "BNanSub":
@@ -413,6 +421,8 @@ class _B(M2._M):
             if e.attr == "sum":
                 return ("npfunc", "sum")
             _un("numpy attribute outside the sub-language", e)
+        if T._is_name(e.value, "DT") and "DT" not in ctx["env"]:
+            return ("DT", e.attr)
         if T._is_name(e.value, "MO") and "MO" not in ctx["env"] and self.kind == "matrix":
             if e.attr in ("ROWS", "COLUMNS"):
                 return ("MO", e.attr)
@@ -448,6 +458,8 @@ class _B(M2._M):
             _un("attribute of a measure object other than its blocks", e)
         if k == "dimidx" and e.attr == "subtotals":
             return ("subs", base[1])
+        if k == "dimidx" and e.attr == "dimension_type":
+            return ("dimtype", base[1])
         if k in ("arr", "cubeattr") and e.attr == "shape":
             return ("shape", ("HShape", self.arr(base, e)))
         _un("attribute outside the sub-language", e)
@@ -617,6 +629,12 @@ class _B(M2._M):
                 if isinstance(op, ast.IsNot):
                     return ("static", not c[1]) if c[0] == "static" else ("QNot", c)
                 return c
+            if isinstance(op, (ast.In, ast.NotIn)):
+                a, b = self.expr(l, ctx), self.expr(r, ctx)
+                if a[0] == "dimtype" and b[0] == "DT":
+                    c = ("QDimTypeIn", a[1], b[1])
+                    return ("QNot", c) if isinstance(op, ast.NotIn) else c
+                _un("membership test other than <dimension>.dimension_type [not] in DT.<SET>", t)
             if isinstance(op, ast.Eq):
                 a = self.expr(l, ctx)
                 if a[0] == "MO":
@@ -768,6 +786,190 @@ class _Mask(object):
 
 
 # ------------------------------------------------------------------------------------
+# scalar.py: MeansScalar (the 0-D nub's data object)
+# ------------------------------------------------------------------------------------
+
+
+class _Scalar(_Mask):
+    """MeansScalar.<member>: `return self._<field>` / `return self.<member>` / `return <int>`"""
+
+    CLS = "MeansScalar"
+
+    def __init__(self, text):
+        self.text = text
+        self.m = M2._Mod(text, M_SCALAR)
+        self.problem = None
+        if not self.m.only_imports_and_classes():
+            self.problem = "module-level statements other than imports and classes"
+        if self.m.imported().get("lazyproperty") != ("cr.cube.util", "lazyproperty"):
+            self.problem = "lazyproperty is not imported as expected"
+
+    def member(self, mname, stack=()):
+        if self.problem:
+            _un(self.problem)
+        cname = self.CLS
+        if mname in stack:
+            _un("%s.%s refers to itself" % (cname, mname))
+        if len(self.m.mro(cname)) != 1:
+            _un("%s has a base class" % cname)
+        fields = self._fields(cname)
+        fn = self.m.resolve(cname, mname)
+        if fn is None or not M2._plain_lazy(fn):
+            _un("%s.%s is not a plain @lazyproperty" % (cname, mname), fn)
+        stmts = T._strip_doc(fn.body)
+        if not (len(stmts) == 1 and isinstance(stmts[0], ast.Return) and stmts[0].value is not None):
+            _un("%s.%s is not `return <expr>`" % (cname, mname), fn)
+        e = stmts[0].value
+        k = T._nat(e)
+        if k is not None:
+            return ("BConstZ", k)
+        if isinstance(e, ast.Attribute) and T._is_name(e.value, "self"):
+            if e.attr in fields:
+                if self.m.resolve(cname, e.attr) is not None:
+                    _un("attribute is both a field and a member", e)
+                return ("BArg", fields[e.attr])
+            return self.member(e.attr, stack + (mname,))
+        _un("expression outside the sub-language", e)
+
+
+# ------------------------------------------------------------------------------------
+# stripe/cubemeasure.py: the numeric-measure factories and the CubeMeasures collection
+# ------------------------------------------------------------------------------------
+
+# (base class, the cube attribute handed over, the field it lands in)
+STRIPE_FACTORIES = (
+    ("_BaseCubeMeans", "CubeMeans", "means", "_means"),
+    ("_BaseCubeMedians", "CubeMedians", "medians", "_medians"),
+    ("_BaseCubeStdDev", "CubeStdDev", "stddev", "_stddev"),
+    ("_BaseCubeSums", "CubeSums", "sums", "_sums"),
+)
+STRIPE_COLLECTION = ("cube_means", "cube_medians", "cube_stddev", "cube_sum", "unweighted_cube_counts",
+                     "weighted_cube_counts")
+
+
+class _StripeCM(object):
+    def __init__(self, text):
+        self.tr = T._Tr(text, T.STRIPE)
+
+    def numeric_factory(self, base):
+        """if cube.<a> is None: raise ..;  X = (A if rows_dimension.dimension_type == DT.<M> else B);
+        return X(rows_dimension, cube.<a>)   ->   (a, ([(StDimIs M, (A, false))], (B, false)), args)"""
+        tr = self.tr
+        body = tr._classmethod(base, "factory", ["cls", "cube", "rows_dimension"])
+        if len(body) not in (2, 3):
+            _un("%s.factory: statements not read" % base)
+        g = body[0]
+        if not (
+            isinstance(g, ast.If) and not g.orelse and len(g.body) == 1 and isinstance(g.body[0], ast.Raise)
+            and isinstance(g.test, ast.Compare) and len(g.test.ops) == 1 and isinstance(g.test.ops[0], ast.Is)
+            and _is_none(g.test.comparators[0])
+            and isinstance(g.test.left, ast.Attribute) and T._is_name(g.test.left.value, "cube")
+        ):
+            _un("%s.factory: first statement is not `if cube.<attr> is None: raise ...`" % base, g)
+        guard = g.test.left.attr
+        ret = body[-1]
+        if not (isinstance(ret, ast.Return) and isinstance(ret.value, ast.Call) and not ret.value.keywords):
+            _un("%s.factory: no final `return <Class>(..)`" % base, ret)
+        call = ret.value
+        sel = call.func
+        if len(body) == 3:
+            a = body[1]
+            if not (
+                isinstance(a, ast.Assign) and len(a.targets) == 1 and isinstance(a.targets[0], ast.Name)
+                and a.targets[0].id not in ("cls", "cube", "rows_dimension", "DT")
+                and T._is_name(sel, a.targets[0].id)
+            ):
+                _un("%s.factory: class selection not read" % base, a)
+            sel = a.value
+        if not (
+            isinstance(sel, ast.IfExp) and isinstance(sel.body, ast.Name) and isinstance(sel.orelse, ast.Name)
+            and isinstance(sel.test, ast.Compare) and len(sel.test.ops) == 1
+            and isinstance(sel.test.ops[0], ast.Eq)
+            and T._is_attr(sel.test.left, "rows_dimension", "dimension_type")
+            and T._is_DT(sel.test.comparators[0]) is not None
+        ):
+            _un("%s.factory: class selection is not `A if rows_dimension.dimension_type == DT.<M> else B`" % base, sel)
+        args = []
+        for x in call.args:
+            if T._is_name(x, "rows_dimension"):
+                args.append("rows_dimension")
+            elif isinstance(x, ast.Attribute) and T._is_name(x.value, "cube"):
+                args.append("cube." + x.attr)
+            else:
+                _un("%s.factory: constructor argument not read" % base, x)
+        names = [sel.body.id, sel.orelse.id]
+        tr._same_init(base, names)
+        init = tr.resolve(base, "__init__")
+        if init is None:
+            _un("%s.__init__ missing" % base)
+        self.init_params = [a.arg for a in init.args.args][1:]
+        self.init_fields = dict((f, v[1]) for f, v in tr.fields(base).items())
+        return "(%s, ([(StDimIs %s, (%s, false))], (%s, false)), %s, %s)" % (
+            q(guard), q(T._is_DT(sel.test.comparators[0])), q(names[0]), q(names[1]),
+            T.coq_list([q(a) for a in args]),
+            T.coq_list(["(%s, %s)" % (q(f), q(v)) for f, v in sorted(self.init_fields.items())]))
+
+    def collection(self, mname):
+        """CubeMeasures.<mname>: local names, then `return <Base>.factory(args)` -> cmexp"""
+        tr = self.tr
+        cname = "CubeMeasures"
+        if not tr._imports_ok:
+            _un("module imports are not the expected ones")
+        if len(tr.mro(cname)) != 1:
+            _un("CubeMeasures has a base class")
+        fields = tr.fields(cname)
+        fn = tr.resolve(cname, mname)
+        if fn is None or not M2._plain_lazy(fn):
+            _un("%s.%s is not a plain @lazyproperty" % (cname, mname), fn)
+        for c in tr.mro(cname):
+            for mn, f2 in c.methods.items():
+                if mn == "__init__":
+                    continue
+                for n in ast.walk(f2):
+                    if (isinstance(n, ast.Attribute) and isinstance(n.ctx, (ast.Store, ast.Del))
+                            and T._is_name(n.value, "self")):
+                        _un("%s.%s assigns an attribute of self" % (cname, mn), n)
+        env = {}
+
+        def arg(e):
+            if isinstance(e, ast.Name):
+                if e.id in env:
+                    return env[e.id]
+                _un("name not bound in the method", e)
+            if isinstance(e, ast.Attribute):
+                if T._is_name(e.value, "self") and e.attr in fields and tr.resolve(cname, e.attr) is None:
+                    return "KField %s" % q(fields[e.attr][1])
+                v = e.value
+                if (isinstance(v, ast.Attribute) and T._is_name(v.value, "self")
+                        and fields.get(v.attr, (None, None))[1] == "cube" and tr.resolve(cname, v.attr) is None):
+                    return "KCube %s" % q(e.attr)
+            if isinstance(e, ast.IfExp):
+                t = e.test
+                if (isinstance(t, ast.Compare) and len(t.ops) == 1 and isinstance(t.ops[0], ast.IsNot)
+                        and _is_none(t.comparators[0]) and ast.dump(t.left) == ast.dump(e.body)):
+                    return "KOrElse (%s) (%s)" % (arg(e.body), arg(e.orelse))
+            _un("argument outside the sub-language", e)
+
+        body = T._strip_doc(fn.body)
+        for st in body[:-1]:
+            if not (isinstance(st, ast.Assign) and len(st.targets) == 1 and isinstance(st.targets[0], ast.Name)
+                    and st.targets[0].id != "self"):
+                _un("statement not read", st)
+            env[st.targets[0].id] = arg(st.value)
+        ret = body[-1] if body else None
+        if not (
+            isinstance(ret, ast.Return) and isinstance(ret.value, ast.Call) and not ret.value.keywords
+            and isinstance(ret.value.func, ast.Attribute) and ret.value.func.attr == "factory"
+            and isinstance(ret.value.func.value, ast.Name) and ret.value.func.value.id in tr.classes
+            and ret.value.func.value.id not in env
+            and not any(isinstance(a, ast.Starred) for a in ret.value.args)
+        ):
+            _un("%s.%s does not end in `return <Base>.factory(..)`" % (cname, mname), fn)
+        return "CMFactory %s %s" % (q(ret.value.func.value.id),
+                                     T.coq_list(["(%s)" % arg(a) for a in ret.value.args]))
+
+
+# ------------------------------------------------------------------------------------
 # emission
 # ------------------------------------------------------------------------------------
 
@@ -813,6 +1015,8 @@ MATRIX_TARGETS = (
     ("table_unweighted_base", "TableUnweightedBase", ("value", "?is_defined")),
     ("table_weighted_bases_range", "TableWeightedBasesRange", ("value",)),
     ("table_unweighted_bases_range", "TableUnweightedBasesRange", ("value",)),
+    ("column_comparable_counts", "ColumnComparableCounts", ("blocks", "?is_defined")),
+    ("row_comparable_counts", "RowComparableCounts", ("blocks", "?is_defined")),
 )
 STRIPE_TARGETS = (
     ("unweighted_bases", "UnweightedBases", ("base_values", "subtotal_values", "table_base_range")),
@@ -935,6 +1139,66 @@ def _gen_pass(text, strat_text, report):
     return HEADER % ("src/" + M2.M_MATRIX, "MeasureExp.v", "MeasureExp") + "\n".join(L) + "\n"
 
 
+
+def _gen_scalar(text, report):
+    tr = _Scalar(text)
+    L = ["(** * MeansScalar *)"]
+    for m in ("means", "table_base", "ndim"):
+        what = "MeansScalar.%s" % m
+        try:
+            term = "Some (%s)" % p_bexp(tr.member(m))
+            report["methods_translated"].append("scalar:%s" % what)
+        except Unavailable as ex:
+            term = "None"
+            report["unavailable"].append({"method": "scalar:%s" % what, "reason": str(ex)})
+            L.append("(* %s not read: %s *)" % (what, T._coq_comment(str(ex))))
+        L.append("Definition src_MeansScalar_%s : option bexp := %s." % (m, term))
+    return HEADER % ("src/" + M_SCALAR, "BasesExp.v", "BasesExp") + "\n".join(L) + "\n"
+
+
+HEADER_F = """(* GENERATED by harness/translate/x_bases.py from src/cr/cube/stripe/cubemeasure.py
+   -- do not edit; rewritten (only when its text changes) on every check.
+   ssrc_<Family>_factory: (cube attribute whose None raises, class dispatch on the rows dimension's
+   type [Base/Tensor.v stripe_dispatch], constructor arguments, the fields of the family's __init__);
+   ssrc_CubeMeasures_<member>: which factory the collection calls on which arguments
+   [Base/BasesExp.v cmexp].  [None] = the translator could not read the member. *)
+From Coq Require Import List String.
+From CC Require Import Base.Tensor Base.BasesExp.
+Import ListNotations.
+Local Open Scope string_scope.
+
+"""
+
+
+def _gen_stripe_factory(text, report):
+    tr = _StripeCM(text)
+    L = ["(** * the numeric-measure factories *)"]
+    for base, stem, _attr, _fld in STRIPE_FACTORIES:
+        what = "%s.factory" % base
+        try:
+            term = "Some (%s)" % tr.numeric_factory(base)
+            report["methods_translated"].append("stripe:%s" % what)
+        except Unavailable as ex:
+            term = "None"
+            report["unavailable"].append({"method": "stripe:%s" % what, "reason": str(ex)})
+            L.append("(* %s not read: %s *)" % (what, T._coq_comment(str(ex))))
+        L.append("Definition ssrc_%s_factory : option (string * stripe_dispatch * list string * list (string * string)) := %s."
+                 % (stem, term))
+    L.append("")
+    L.append("(** * CubeMeasures *)")
+    for m in STRIPE_COLLECTION:
+        what = "CubeMeasures.%s" % m
+        try:
+            term = "Some (%s)" % tr.collection(m)
+            report["methods_translated"].append("stripe:%s" % what)
+        except Unavailable as ex:
+            term = "None"
+            report["unavailable"].append({"method": "stripe:%s" % what, "reason": str(ex)})
+            L.append("(* %s not read: %s *)" % (what, T._coq_comment(str(ex))))
+        L.append("Definition ssrc_CubeMeasures_%s : option cmexp := %s." % (m, term))
+    return HEADER_F + "\n".join(L) + "\n"
+
+
 def _fallback(what, ex):
     return "(* GENERATED by harness/translate/x_bases.py from %s: translator failed: %s *)\n" % (
         what, T._coq_comment(repr(ex)))
@@ -943,7 +1207,7 @@ def _fallback(what, ex):
 def regenerate(repo_src, gen_dir, report):
     report["bases_version"] = VERSION
     texts = {}
-    for rel in (M2.M_MATRIX, M2.M_STRIPE, M2.M_SUBTOTALS, M2.M_INSERTION, M_MASK):
+    for rel in (M2.M_MATRIX, M2.M_STRIPE, M2.M_SUBTOTALS, M2.M_INSERTION, M_MASK, M_SCALAR, T.STRIPE):
         p = os.path.join(repo_src, rel)
         try:
             with open(p, encoding="utf-8") as f:
@@ -958,6 +1222,8 @@ def regenerate(repo_src, gen_dir, report):
         ("StripeBasesSrc.v", lambda: _gen_stripe(texts[M2.M_STRIPE], texts[M2.M_INSERTION], report), "src/" + M2.M_STRIPE),
         ("MaskSrc.v", lambda: _gen_mask(texts[M_MASK], report), "src/" + M_MASK),
         ("PassMeasureSrc.v", lambda: _gen_pass(texts[M2.M_MATRIX], texts[M2.M_SUBTOTALS], report), "src/" + M2.M_MATRIX),
+        ("ScalarSrc.v", lambda: _gen_scalar(texts[M_SCALAR], report), "src/" + M_SCALAR),
+        ("StripeFactorySrc.v", lambda: _gen_stripe_factory(texts[T.STRIPE], report), "src/" + T.STRIPE),
     )
     outs = {}
     for name, job, what in jobs:
